@@ -14,7 +14,12 @@
 (*   one / several candidates, plain and (prefix, path) form, also one     *)
 (*   that dirs lists too and the default directory itself), app_dirs (not  *)
 (*   given / empty / one / two names) and how COMPONENTS itself is written *)
-(*   (dict, dict with None for what is not given, ComponentsSettings).     *)
+(*   (dict, dict with None for what is not given, ComponentsSettings);     *)
+(*   further choices SPELL the listed paths (trailing slash, "." / ".."    *)
+(*   segments, a symbolic link, the same directory listed several times),  *)
+(*   give app_dirs entries that are multi-segment relative paths or carry  *)
+(*   a trailing slash / leading "./" / are repeated, and spell BASE_DIR    *)
+(*   itself with ".." or through a symbolic link.                          *)
 (*                                                                         *)
 (* Every state is exported with the expected result of get_component_files *)
 (* (spec -> code replay) and which of the selected files Python must be    *)
@@ -23,7 +28,9 @@
 EXTENDS Autodiscover, TLC, Json, IOUtils
 
 CONSTANTS VarIdx, SfxIdx, Codes, SmallCodes, MaxEntries,
-          CfgSfxIdx        \* suffixes of the "cfg" family ({} switches it off)
+          CfgSfxIdx,       \* suffixes of the "cfg" family ({} switches it off)
+          SpelledCfgSfxIdx, \* suffixes of the "cfg" scenarios with spellings
+          LightVarIdx, LightCodes  \* variants whose trees are built from LightCodes only
 
 DirPool == << <<>>, <<"pkg">>, <<"pkg", "sub">>, <<"_priv">>, <<".hid">>, <<"pkg", "_in">>, <<"pkg", ".h">>,
               <<"d.ot">>, <<"__pycache__">>, <<"a-b", "c">>, <<"p_q">> >>
@@ -33,28 +40,55 @@ FileNames == << "a.py", "_b.py", "__init__.py", ".h.py", "m.py", "a.b.py", "x.js
 DirNames == << "e.py", "plain", "_e.py", ".e.py", "e.js" >>
 Suffixes == << ".py", "", ".js", ".pyx" >>
 
-M(w, f) == [in |-> w, form |-> f]
-Cfg(d, a, names) == [dirs |-> d, appdirs |-> a, appnames |-> names, form |-> "dict"]
-\* how the root is configured; the harness materialises it from (kind, prefix, src) and cfg
+M(w, f) == [in |-> w, form |-> f, spell |-> "plain"]
+MS(w, f, sp) == [in |-> w, form |-> f, spell |-> sp]
+E(segs, sp) == [segs |-> segs, spell |-> sp]
+Names(ns) == [i \in DOMAIN ns |-> E(<<ns[i]>>, "plain")]
+Cfg(d, a, names) == [dirs |-> d, appdirs |-> a, appnames |-> names, form |-> "dict", base |-> "plain"]
+\* how the root is configured; the harness materialises it from (kind, prefix, app, alias, src) and cfg.
+\* Variants 10.. are the SPELLINGS (LightVarIdx: they get the trees over LightCodes only)
+V(id, kind, prefix, app, alias, glob, src, cfg) ==
+  [id |-> id, kind |-> kind, prefix |-> prefix, app |-> app, alias |-> alias, globmeta |-> glob, src |-> src, cfg |-> cfg]
 Variants == <<
-  [id |-> "dirs-str",      kind |-> "dirs", prefix |-> <<"comps">>,            globmeta |-> FALSE,
-   src |-> <<M("dirs", "str")>>,      cfg |-> Cfg("set", "unset", <<>>)],
-  [id |-> "dirs-path",     kind |-> "dirs", prefix |-> <<"outer", "comps">>,   globmeta |-> FALSE,
-   src |-> <<M("dirs", "path")>>,     cfg |-> Cfg("set", "set", <<>>)],
-  [id |-> "static",        kind |-> "dirs", prefix |-> <<"assets">>,           globmeta |-> FALSE,
-   src |-> <<M("static", "str")>>,    cfg |-> Cfg("unset", "unset", <<>>)],
-  [id |-> "static-tuple",  kind |-> "dirs", prefix |-> <<"assets">>,           globmeta |-> FALSE,
-   src |-> <<M("static", "tuple-path")>>, cfg |-> Cfg("unset", "set", <<"components">>)],
-  [id |-> "default",       kind |-> "dirs", prefix |-> <<"components">>,       globmeta |-> FALSE,
-   src |-> <<M("default", "")>>,      cfg |-> Cfg("unset", "unset", <<>>)],
-  [id |-> "app",           kind |-> "app",  prefix |-> <<"genapp", "components">>,  globmeta |-> FALSE,
-   src |-> <<>>,                      cfg |-> Cfg("set", "unset", <<>>)],
-  [id |-> "app-nested-ui", kind |-> "app",  prefix |-> <<"pk", "napp", "ui">>,      globmeta |-> FALSE,
-   src |-> <<>>,                      cfg |-> Cfg("set", "set", <<"ui">>)],
-  [id |-> "app-outside",   kind |-> "app",  prefix |-> <<"extapp", "components">>,  globmeta |-> FALSE,
-   src |-> <<>>,                      cfg |-> Cfg("set", "set", <<"components">>)],
-  [id |-> "dirs-bracket",  kind |-> "dirs", prefix |-> <<"comps">>,            globmeta |-> TRUE,
-   src |-> <<M("dirs", "str")>>,      cfg |-> Cfg("set", "unset", <<>>)] >>
+  V("dirs-str",      "dirs", <<"comps">>,            <<>>, <<>>, FALSE, <<M("dirs", "str")>>,  Cfg("set", "unset", <<>>)),
+  V("dirs-path",     "dirs", <<"outer", "comps">>,   <<>>, <<>>, FALSE, <<M("dirs", "path")>>, Cfg("set", "set", <<>>)),
+  V("static",        "dirs", <<"assets">>,           <<>>, <<>>, FALSE, <<M("static", "str")>>, Cfg("unset", "unset", <<>>)),
+  V("static-tuple",  "dirs", <<"assets">>,           <<>>, <<>>, FALSE, <<M("static", "tuple-path")>>,
+    Cfg("unset", "set", Names(<<"components">>))),
+  V("default",       "dirs", <<"components">>,       <<>>, <<>>, FALSE, <<M("default", "")>>,  Cfg("unset", "unset", <<>>)),
+  V("app",           "app",  <<"genapp", "components">>, <<"genapp">>, <<>>, FALSE, <<>>,     Cfg("set", "unset", <<>>)),
+  V("app-nested-ui", "app",  <<"pk", "napp", "ui">>, <<"pk", "napp">>, <<>>, FALSE, <<>>,     Cfg("set", "set", Names(<<"ui">>))),
+  V("app-outside",   "app",  <<"extapp", "components">>, <<"extapp">>, <<>>, FALSE, <<>>,     Cfg("set", "set", Names(<<"components">>))),
+  V("dirs-bracket",  "dirs", <<"comps">>,            <<>>, <<>>, TRUE,  <<M("dirs", "str")>>,  Cfg("set", "unset", <<>>)),
+  \* 10: <BASE_DIR>/conf/../comps
+  V("dirs-dotdot",   "dirs", <<"comps">>,            <<>>, <<>>, FALSE, <<MS("dirs", "str", "dotdot")>>, Cfg("set", "unset", <<>>)),
+  \* 11: ("pfx", <BASE_DIR>/assets/../assets) in STATICFILES_DIRS
+  V("static-tuple-updown", "dirs", <<"assets">>,     <<>>, <<>>, FALSE, <<MS("static", "tuple", "updown")>>, Cfg("unset", "set", <<>>)),
+  \* 12: Path with "." segment and the same directory once more with a trailing slash
+  V("dirs-twice-dot-slash", "dirs", <<"outer", "comps">>, <<>>, <<>>, FALSE,
+    <<MS("dirs", "path", "dot"), MS("dirs", "str", "slash")>>, Cfg("set", "set", <<>>)),
+  \* 13: the directory and a symbolic link to it, both listed
+  V("dirs-real-and-link", "dirs", <<"comps">>,       <<>>, <<"lnk", "c1">>, FALSE,
+    <<M("dirs", "str"), MS("dirs", "path", "alias")>>, Cfg("set", "unset", <<>>)),
+  \* 14: only the link listed, in STATICFILES_DIRS
+  V("static-link",   "dirs", <<"assets">>,           <<>>, <<"lnk", "c3">>, FALSE, <<MS("static", "str", "alias")>>, Cfg("unset", "unset", <<>>)),
+  \* 15: app_dirs = ["parts/inner"]
+  V("app-path",      "app",  <<"extapp", "parts", "inner">>, <<"extapp">>, <<>>, FALSE, <<>>,
+    Cfg("set", "set", <<E(<<"parts", "inner">>, "plain")>>)),
+  \* 16: app_dirs = ["components/"] of a nested app
+  V("app-slash",     "app",  <<"pk", "napp", "components">>, <<"pk", "napp">>, <<>>, FALSE, <<>>,
+    Cfg("set", "set", <<E(<<"components">>, "slash")>>)),
+  \* 17: app_dirs = ["./parts/inner/"-like: "./parts/inner"] of a nested app
+  V("app-path-dot",  "app",  <<"pk", "napp", "parts", "inner">>, <<"pk", "napp">>, <<>>, FALSE, <<>>,
+    Cfg("set", "set", <<E(<<"parts", "inner">>, "dot")>>)),
+  \* 18: the same app directory given twice
+  V("app-twice",     "app",  <<"genapp", "components">>, <<"genapp">>, <<>>, FALSE, <<>>,
+    Cfg("set", "set", <<E(<<"components">>, "plain"), E(<<"components">>, "slash")>>)),
+  \* 19 / 20: BASE_DIR itself spelled with ".." / through a symbolic link
+  V("base-dotdot",   "dirs", <<"comps">>,            <<>>, <<>>, FALSE, <<M("dirs", "str")>>,
+    [Cfg("set", "unset", <<>>) EXCEPT !.base = "dotdot"]),
+  V("base-link",     "dirs", <<"components">>,       <<>>, <<>>, FALSE, <<M("default", "")>>,
+    [Cfg("unset", "unset", <<>>) EXCEPT !.base = "alias"]) >>
 
 \* entry codes: kind*10000 + dir*100 + name
 Decode(c) == LET d == (c % 10000) \div 100
@@ -62,68 +96,95 @@ Decode(c) == LET d == (c % 10000) \div 100
              IF c >= 10000 THEN Dir(DirPool[d] \o <<DirNames[n]>>) ELSE File(DirPool[d] \o <<FileNames[n]>>)
 
 (* ---- the "cfg" family -------------------------------------------------- *)
+C(id, kind, prefix, app, alias) ==
+  [id |-> id, kind |-> kind, prefix |-> prefix, app |-> app, alias |-> alias, globmeta |-> FALSE]
 Cands == <<
-  [id |-> "c1", kind |-> "dirs", prefix |-> <<"comps">>,                globmeta |-> FALSE],
-  [id |-> "c2", kind |-> "dirs", prefix |-> <<"outer", "comps">>,       globmeta |-> FALSE],
-  [id |-> "c3", kind |-> "dirs", prefix |-> <<"assets">>,               globmeta |-> FALSE],
-  [id |-> "c4", kind |-> "dirs", prefix |-> <<"lib", "more">>,          globmeta |-> FALSE],
-  [id |-> "c5", kind |-> "dirs", prefix |-> <<"components">>,           globmeta |-> FALSE],
-  [id |-> "c6", kind |-> "app",  prefix |-> <<"genapp", "components">>, globmeta |-> FALSE],
-  [id |-> "c7", kind |-> "app",  prefix |-> <<"pk", "napp", "ui">>,     globmeta |-> FALSE],
-  [id |-> "c8", kind |-> "app",  prefix |-> <<"extapp", "components">>, globmeta |-> FALSE],
-  [id |-> "c9", kind |-> "app",  prefix |-> <<"genapp", "ui">>,         globmeta |-> FALSE] >>
+  C("c1", "dirs", <<"comps">>,                <<>>, <<"lnk", "c1">>),
+  C("c2", "dirs", <<"outer", "comps">>,       <<>>, <<>>),
+  C("c3", "dirs", <<"assets">>,               <<>>, <<"lnk", "c3">>),
+  C("c4", "dirs", <<"lib", "more">>,          <<>>, <<>>),
+  C("c5", "dirs", <<"components">>,           <<>>, <<>>),
+  C("c6", "app",  <<"genapp", "components">>, <<"genapp">>, <<>>),
+  C("c7", "app",  <<"pk", "napp", "ui">>,     <<"pk", "napp">>, <<>>),
+  C("c8", "app",  <<"extapp", "components">>, <<"extapp">>, <<>>),
+  C("c9", "app",  <<"genapp", "ui">>,         <<"genapp">>, <<>>),
+  C("c10", "app", <<"extapp", "parts", "inner">>,     <<"extapp">>, <<>>),
+  C("c11", "app", <<"pk", "napp", "parts", "inner">>, <<"pk", "napp">>, <<>>) >>
 DefaultCand == 5
-L(c, f) == [c |-> c, form |-> f]
-\* COMPONENTS.dirs: not given, or the list of candidates given
+L(c, f) == [c |-> c, form |-> f, spell |-> "plain"]
+LS(c, f, sp) == [c |-> c, form |-> f, spell |-> sp]
+\* COMPONENTS.dirs: not given, or the list of candidates given.  Choices after the first N*Old are the
+\* spellings: "..", trailing slash, a symbolic link, the same directory several times.
 DirsChoices == <<
   [given |-> FALSE, list |-> <<>>],
   [given |-> TRUE,  list |-> <<>>],
   [given |-> TRUE,  list |-> <<L(1, "str")>>],
   [given |-> TRUE,  list |-> <<L(1, "path"), L(2, "tuple")>>],
   [given |-> TRUE,  list |-> <<L(3, "str")>>],
-  [given |-> TRUE,  list |-> <<L(5, "path")>> ] >>
+  [given |-> TRUE,  list |-> <<L(5, "path")>> ],
+  [given |-> TRUE,  list |-> <<LS(1, "str", "dotdot"), LS(2, "path", "updown")>>],
+  [given |-> TRUE,  list |-> <<L(1, "path"), LS(1, "str", "alias"), LS(2, "tuple", "slash"), LS(2, "str", "dotdot")>>],
+  [given |-> TRUE,  list |-> <<LS(3, "path", "alias"), LS(5, "str", "dot")>>] >>
+NDirsOld == 6
 StaticChoices == <<
   <<>>,
   <<L(3, "str")>>,
   <<L(3, "tuple")>>,
   <<L(3, "path"), L(4, "tuple-path")>>,
-  <<L(5, "str")>> >>
+  <<L(5, "str")>>,
+  <<LS(3, "tuple", "dotdot"), LS(4, "str", "slash")>>,
+  <<L(3, "str"), LS(3, "tuple-path", "alias"), LS(4, "path", "updown")>> >>
+NStaticOld == 5
 AppChoices == <<
   [given |-> FALSE, names |-> <<>>],
   [given |-> TRUE,  names |-> <<>>],
-  [given |-> TRUE,  names |-> <<"components">>],
-  [given |-> TRUE,  names |-> <<"ui">>],
-  [given |-> TRUE,  names |-> <<"ui", "components">>] >>
+  [given |-> TRUE,  names |-> Names(<<"components">>)],
+  [given |-> TRUE,  names |-> Names(<<"ui">>)],
+  [given |-> TRUE,  names |-> Names(<<"ui", "components">>)],
+  [given |-> TRUE,  names |-> <<E(<<"parts", "inner">>, "plain")>>],
+  [given |-> TRUE,  names |-> <<E(<<"components">>, "slash"), E(<<"parts", "inner">>, "dot")>>],
+  [given |-> TRUE,  names |-> <<E(<<"parts", "inner">>, "slash"), E(<<"ui">>, "dot"), E(<<"parts", "inner">>, "plain")>>] >>
+NAppOld == 5
 Forms == <<"dict", "dict-none", "object">>
+Bases == <<"plain", "dotdot", "alias">>
 CfgTree == {File(<<"a.py">>), File(<<"pkg", "__init__.py">>), File(<<"pkg", "m.py">>), File(<<"_p.py">>),
             File(<<"x.js">>), File(<<"pkg", "_in", "z.py">>)}
-NoScn == [d |-> 0, s |-> 0, a |-> 0, f |-> 0]
-Scns == [d : DOMAIN DirsChoices, s : DOMAIN StaticChoices, a : DOMAIN AppChoices, f : DOMAIN Forms]
+NoScn == [d |-> 0, s |-> 0, a |-> 0, f |-> 0, b |-> 0]
+\* every combination of the plain choices in every form; the spellings with every other choice, and the
+\* spellings of BASE_DIR with a selection of the choices, COMPONENTS written as a dict
+Scns == [d : 1..NDirsOld, s : 1..NStaticOld, a : 1..NAppOld, f : DOMAIN Forms, b : {1}]
+        \cup {x \in [d : DOMAIN DirsChoices, s : DOMAIN StaticChoices, a : DOMAIN AppChoices, f : {1}, b : {1}] :
+                x.d > NDirsOld \/ x.s > NStaticOld \/ x.a > NAppOld}
+        \cup [d : {1, 3, 6, 7}, s : {1, 2, 6}, a : {1, 2, 6}, f : {1}, b : {2, 3}]
+SpelledScn(x) == x.d > NDirsOld \/ x.s > NStaticOld \/ x.a > NAppOld \/ x.b > 1
 
-Mentions(list, w, c) == LET idx == {i \in DOMAIN list : list[i].c = c} IN
-                        IF idx = {} THEN <<>> ELSE <<M(w, list[CHOOSE i \in idx : TRUE].form)>>
+Mentions(list, w, c) == LET mine == SelectSeq(list, LAMBDA x : x.c = c) IN
+                        [i \in DOMAIN mine |-> MS(w, mine[i].form, mine[i].spell)]
 ScnRoots(x) == [c \in DOMAIN Cands |->
-  [id |-> Cands[c].id, kind |-> Cands[c].kind, prefix |-> Cands[c].prefix, globmeta |-> FALSE,
+  [id |-> Cands[c].id, kind |-> Cands[c].kind, prefix |-> Cands[c].prefix, app |-> Cands[c].app,
+   alias |-> Cands[c].alias, globmeta |-> FALSE,
    src |-> IF Cands[c].kind = "app" THEN <<>>
            ELSE Mentions(DirsChoices[x.d].list, "dirs", c) \o Mentions(StaticChoices[x.s], "static", c)
                 \o (IF c = DefaultCand THEN <<M("default", "")>> ELSE <<>>)]]
 ScnCfg(x) == [dirs |-> IF DirsChoices[x.d].given THEN "set" ELSE "unset",
               appdirs |-> IF AppChoices[x.a].given THEN "set" ELSE "unset",
-              appnames |-> AppChoices[x.a].names, form |-> Forms[x.f]]
+              appnames |-> AppChoices[x.a].names, form |-> Forms[x.f], base |-> Bases[x.b]]
 
 VARIABLES vid, sid, codes, scn
 mcVars == <<vid, sid, codes, scn>>
 IsCfg == scn # NoScn
 Sfx == Suffixes[sid]
 Tree == {Decode(c) : c \in codes}
-Root == [k \in {"id", "kind", "prefix", "globmeta", "src"} |-> Variants[vid][k]]
+Root == [k \in {"id", "kind", "prefix", "app", "alias", "globmeta", "src"} |-> Variants[vid][k]]
 TheRoots == IF IsCfg THEN ScnRoots(scn) ELSE <<Root>>
 TheTrees == IF IsCfg THEN [c \in DOMAIN Cands |-> CfgTree] ELSE <<Tree>>
 TheCfg == IF IsCfg THEN ScnCfg(scn) ELSE Variants[vid].cfg
 
 MCInit == \/ vid \in VarIdx /\ sid \in SfxIdx /\ codes = {} /\ scn = NoScn
           \/ vid = 0 /\ sid \in CfgSfxIdx /\ codes = {} /\ scn \in Scns
+             /\ (SpelledScn(scn) => sid \in SpelledCfgSfxIdx)
 Add(c) == /\ ~IsCfg
+          /\ vid \in LightVarIdx => c \in LightCodes
           /\ c \notin codes /\ Cardinality(codes) < MaxEntries
           /\ codes = {} \/ (c \in SmallCodes /\ codes \subseteq SmallCodes)
           /\ codes' = codes \cup {c} /\ UNCHANGED <<vid, sid, scn>>
@@ -156,8 +217,19 @@ Theorems ==
   /\ \A j, k \in Act : \A a \in SelectedIn(j, ".py") : \A b \in SelectedIn(k, ".py") :
        (<<j, a>> # <<k, b>> /\ Loadable(TheTrees[j], a) /\ Loadable(TheTrees[k], b))
        => DotPath(TheRoots[j], a) # DotPath(TheRoots[k], b)
-  \* the deviations only ever add directories or drop whole roots
+  \* a deviating outcome is only ever predicted where a named deviation is triggered, and every prediction
+  \* differs from the specified outcome
   /\ (Exp # DevExp) => DevKeysFor(TheCfg, TheRoots, TheTrees, Sfx) # {}
+  /\ \A alt \in DevAlternatives(TheCfg, TheRoots, TheTrees, Sfx) : alt.rows # Exp /\ alt.keys # {}
+  \* how directories are spelled (and how often they are listed) means nothing: the same configuration with every
+  \* path written plainly selects the same files under the same dotted paths
+  /\ LET plain == [k \in DOMAIN TheRoots |->
+                     [TheRoots[k] EXCEPT !.src = [i \in DOMAIN TheRoots[k].src |-> [TheRoots[k].src[i] EXCEPT !.spell = "plain"]]]]
+         pcfg == [TheCfg EXCEPT !.base = "plain",
+                                !.appnames = [i \in DOMAIN TheCfg.appnames |-> [TheCfg.appnames[i] EXCEPT !.spell = "plain"]]]
+         P(rows) == {[k |-> r.k, parts |-> r.parts, dot |-> r.dot, n |-> r.n] : r \in rows} IN
+     P(Expected(pcfg, plain, TheTrees, Sfx)) = P(Exp)
+  /\ \A r \in Exp : r.n = 1 /\ r.dot \in r.dots
   \* which directories are searched
   /\ TheCfg.dirs = "set" => \A k \in Act : TheRoots[k].kind = "app" \/ In(TheRoots[k], "dirs")
   /\ (TheCfg.dirs = "set" /\ ~\E k \in DOMAIN TheRoots : In(TheRoots[k], "dirs"))      \* dirs = [] : no project dir
@@ -171,15 +243,18 @@ Export ==
   Serialize(ToJson([label |-> IF IsCfg THEN "cfg" ELSE Variants[vid].id,
                     roots |-> TheRoots, cfg |-> TheCfg, sfx |-> Sfx, trees |-> TheTrees,
                     active |-> Act,
-                    exp |-> Exp, dev |-> DevExp, keys |-> DevKeysFor(TheCfg, TheRoots, TheTrees, Sfx),
+                    exp |-> Exp, devs |-> DevAlternatives(TheCfg, TheRoots, TheTrees, Sfx),
+                    keys |-> DevKeysFor(TheCfg, TheRoots, TheTrees, Sfx),
                     \* files to import one by one (the cfg family imports through autodiscover() only)
                     load |-> IF IsCfg THEN {} ELSE
                              UNION {{[k |-> k, parts |-> e.parts, dot |-> DotPath(TheRoots[k], e)] :
                                        e \in {x \in SelectedIn(k, ".py") : Loadable(TheTrees[k], x)}} : k \in Act},
                     expauto |-> Expected(TheCfg, TheRoots, TheTrees, ".py"),
-                    \* autodiscover() can be called: every selected .py file is loadable and no deviation applies
+                    \* autodiscover() can be called: every selected .py file is loadable under one determined dotted
+                    \* path (no directory listed through a link) and no deviation is triggered
                     auto |-> /\ \A k \in Act : \A x \in SelectedIn(k, ".py") : Loadable(TheTrees[k], x)
-                             /\ Expected(TheCfg, TheRoots, TheTrees, ".py") = DevExpected(TheCfg, TheRoots, TheTrees, ".py")]) \o "\n",
+                             /\ \A k \in Act : ~AliasListed(TheRoots[k])
+                             /\ DevsFor(TheCfg, TheRoots, TheTrees, ".py") = {}]) \o "\n",
             IOEnv.OUT, [format |-> "TXT", charset |-> "UTF-8",
                         openOptions |-> <<"WRITE", "CREATE", "APPEND">>]).exitValue = 0
 =============================================================================
